@@ -27,6 +27,8 @@ def build(ctx, family, only_step=None):
         jobs.append((pre + '_native', [MAIN, o[pre + '_nat.o'], os.path.join(vlib.SRC, 'goldilocks_base_field.cpp')], ctx.flags_native(avx512=avx512, extra=inc + ['-DHAVE_NAT']), ['-lgmp']))
     if t:
         for w in widths:
+            if pre + '_w%d.o' % w not in o:
+                continue
             jobs.append((pre + '_w%d' % w, [MAIN, o[pre + '_w%d.o' % w], os.path.join(t, 'goldilocks_base_field.cpp')], ctx.flags_scaled(w, avx512=avx512, extra=inc + ['-DHAVE_MDL']), ['-lgmp']))
     ctx.bins = ctx.compile_many(jobs)
     ctx.widths = widths
